@@ -25,7 +25,9 @@ EXPLANATION = (
     "The *_vmap methods of the CPMC trials map exactly the arguments documented as '(mapped over)'. "
     "SIB-2: the restricted and unrestricted propagation builders agree on the live keys mf_shifts, "
     "h0_prop and exp_h1[s] under h1[0] == h1[1] (linear value numbering); dead keys (mf_shifts_fp, "
-    "h0_prop_fp of the restricted class, whose propagate_free is an explicit refusal) are excluded."
+    "h0_prop_fp of the restricted class, whose propagate_free is an explicit refusal) are excluded. "
+    "PRNG-1: the restricted and the unrestricted local reconfiguration consume the key identically (new "
+    "key stored back, subkey drawn from). "
 )
 NOT_DECIDED = "equality of restricted and unrestricted trajectories and energies (numerical)."
 TECHNIQUE = "static analysis: batching shape rule, walker-axis mixing query over def-use terms, linear value numbering of the two builders"
